@@ -234,6 +234,38 @@ def family : Family where
             let sorted := if kind == "tpl" then texs else texs.mergeSort (fun a b => bytesLe a.name b.name)
             judgeFsEntries kind 0 sorted (i.drop 4)
         out m o
+      else if op == "fsseq" then
+        -- c = id :: "fsseq" :: kind :: game :: lang :: ext :: loc :: mode :: fileA :: fileB :: n :: texs…
+        -- (write then read on one filesystem object: what was written last is what is read; compress /
+        --  decompress are inverse by C08/C09/C11)
+        let fileA := bufOfHex (rest.getD 3 "-")
+        let fileB := bufOfHex (rest.getD 4 "-")
+        let n' := rest.getD 5 "~"
+        let parsed := parseTexs kind fileB (rest.drop 6)
+        let texs := parsed.map (·.1)
+        let exts := parsed.map (·.2)
+        let firstOf (r : Res (List Texture)) : String :=
+          match r with
+          | .ok ts => "ok." ++ toString (if kind == "tpl" then ts.length else (toMap ts).length)
+          | .err e => "err." ++ e.name
+          | .panic => "panic"
+        let mode := rest.getD 2 "0"
+        let r1 := firstOf (readKind p kind (if mode == "0" then fileA else fileB))
+        let m := r1 ++ " " ++ fsOutcome kind (readKind p kind fileB)
+        let names := texs.map (·.name)
+        let j := i.take 2 ++ i.drop 3   -- drop the first-read token: the rest is an ordinary `fsread` line
+        let o :=
+          if n2Ambiguous kind fileB then "ok skip N2"
+          else if !(conforms kind fileB texs && extentsAgree kind fileB exts && texs.length == n'.toNat!) then
+            "FAIL generated file does not satisfy the container specification (harness/spec disagreement)"
+          else if kind != "tpl" && names.eraseDups.length != names.length then "ok skip duplicate names"
+          else if j.getD 2 "" != "ok" then "FAIL the container written last must be read, got " ++ " ".intercalate ((j.drop 2).take 2)
+          else if (j.getD 3 "").toNat! ≠ texs.length then s!"FAIL {j.getD 3 ""} textures returned, {texs.length} in the container written last"
+          else
+            let sorted := if kind == "tpl" then texs else texs.mergeSort (fun a b => bytesLe a.name b.name)
+            let v := judgeFsEntries kind 0 sorted (j.drop 4)
+            if v == "ok" then "ok" else v ++ " (after write A, read, write B, read: the container written last is B)"
+        out m o
       else if op == "fsreadz" then
         -- c = id :: "fsreadz" :: kind :: loc :: game :: ext :: stored :: file :: n :: texs…
         let game := n
